@@ -264,6 +264,8 @@ def run_engine(ctx, binp, cases, tag):
     if rc != 0:
         raise RuntimeError("mempool engine failed:\n" + log[-3000:])
     obs = [json.loads(l) for l in open(fout)]
+    if obs and obs[-1][-1]["res"] == "hang":
+        return obs          # the engine stopped at a case whose goroutines never returned
     if len(obs) != len(cases):
         raise RuntimeError("mempool engine: %d observations for %d cases" % (len(obs), len(cases)))
     return obs
@@ -375,6 +377,11 @@ def run(ctx):
         ccases.append(cc)
     cobs = run_engine(ctx, binp, ccases, "conc")
     for ci, (c, o) in enumerate(zip(ccases, cobs)):
+        if o[-1]["res"] == "hang":
+            stack = (o[-1].get("extra") or [""])[0]
+            blocked = [l for l in stack.split("\n") if "mempool.(*MemPool)" in l or "sync.(*Map)" in l][:12]
+            conc_fail.append(("goroutines-never-return", "concurrent", ci, 0, {"blocked_in": blocked}))
+            break
         for name, det in pool_predicate(c, o[-1], "concurrent"):
             conc_fail.append((name, "concurrent", ci, 0, det))
 
@@ -398,6 +405,28 @@ def run(ctx):
         ctx.cov["lock_analysis"] = lock_log.strip().split("\n")[-12:]
     if cases:
         ctx.sample({"case": {k: v for k, v in cases[0].items() if k != "ops"}, "ops": cases[0]["ops"][:6], "obs_after_first": obs[0][1]})
+
+    # ---- lock analysis rows that are not exclusive
+    lock_rows = []
+    try:
+        for m in re.finditer(r'\("([^"]+)", "([^"]+)", (\w+)\)', open(os.path.join(ctx.verif, "coq", "Gen", "Locks.v")).read()):
+            lock_rows.append(m.groups())
+    except OSError:
+        pass
+    ctx.cov["lock_rows"] = len(lock_rows)
+    weak = [r for r in lock_rows if r[2] != "Excl"]
+    created = None      # getUnconfirmed seen creating a list on the real pool
+    for c, o in zip(cases, obs):
+        for si, op in enumerate(c["ops"]):
+            if op["op"] == "unconf" and len(o[si + 1]["lists"]) > len(o[si]["lists"]):
+                created = {"case": c, "step": si, "before": o[si]["lists"], "after": o[si + 1]["lists"]}
+                break
+        if created:
+            break
+    if ("acquireMemPoolList", "mp.pool", "RLockOnly") in weak and created:
+        ctx.finding("C13:pool-write-under-read-lock:getUnconfirmed",
+                    "getUnconfirmed inserts a list into mp.pool while holding only the read lock",
+                    {"lock_analysis_row": ["acquireMemPoolList", "mp.pool", "RLockOnly"], "observed": created})
 
     # ---- decide
     allfail = pred_fail + conc_fail
